@@ -537,7 +537,7 @@ func (c *Ctx) CODEC(rule string) []report.Obligation {
 			sn := staticName(com)
 			return sn == "strings.Cut" || sn == "strings.SplitN" || sn == "strings.Split" || sn == "strings.Index" || sn == "strings.Contains"
 		}) {
-			for _, sv := range stringValuesOf(cs.Common().Args[1], 5) {
+			for _, sv := range c.stringValuesThroughParams(cs.Common().Args[1], seenD, 3) {
 				seps[sv] = true
 			}
 		}
@@ -1028,6 +1028,9 @@ func (c *Ctx) ERRDROP(rule string, entry ...string) []report.Obligation {
 				if sig.Results().Len() == 0 || !isErrorType(sig.Results().At(sig.Results().Len()-1).Type()) {
 					continue
 				}
+				if neverFails(&call.Call) {
+					continue
+				}
 				n++
 				if at := c.errUntestedExit(call); at != "" {
 					out = append(out, bad(rule, c.P.FuncID(f)+" :: error of "+c.P.KeyTerm(call, 1), c.P.InstrPos(in),
@@ -1039,6 +1042,16 @@ func (c *Ctx) ERRDROP(rule string, entry ...string) []report.Obligation {
 	out = append(out, ok2(rule, "inventory", "", fmt.Sprintf("%d error-returning calls in %d reachable functions: every one not listed is consumed on every path", n, len(r.Set))))
 	c.Stats[rule+".calls"] = n
 	return out
+}
+
+// neverFails: the in-memory writers of the standard library, whose error result is documented to be always nil.
+func neverFails(com *ssa.CallCommon) bool {
+	switch staticName(com) {
+	case "(*strings.Builder).Write", "(*strings.Builder).WriteByte", "(*strings.Builder).WriteRune", "(*strings.Builder).WriteString",
+		"(*bytes.Buffer).Write", "(*bytes.Buffer).WriteByte", "(*bytes.Buffer).WriteRune", "(*bytes.Buffer).WriteString":
+		return true
+	}
+	return false
 }
 
 // ---------------------------------------------------------------------------
@@ -3723,5 +3736,56 @@ func (c *Ctx) KINDTEST(rule string) []report.Obligation {
 		}
 	}
 	out = append(out, report.Obligation{Rule: rule, Key: "path resolution :: files and directories told apart with IsDir", Status: report.Discharged, Why: fmt.Sprintf("%d IsRegular tests found", n)})
+	return out
+}
+
+// stringValuesThroughParams: the constant strings v can be; when v is (an element of) a parameter of an unexported
+// helper that is only ever called directly, the values its callers inside scope hand over.
+func (c *Ctx) stringValuesThroughParams(v ssa.Value, scope map[*ssa.Function]bool, depth int) []string {
+	if out := stringValuesOf(v, 5); len(out) > 0 || depth == 0 {
+		return out
+	}
+	var p *ssa.Parameter
+	elem := false
+	switch x := v.(type) {
+	case *ssa.Parameter:
+		p = x
+	case *ssa.UnOp:
+		if ia, ok := x.X.(*ssa.IndexAddr); ok && x.Op == token.MUL {
+			if pp, ok := ia.X.(*ssa.Parameter); ok {
+				p, elem = pp, true
+			}
+		}
+	}
+	if p == nil {
+		return nil
+	}
+	if c.dyn == nil {
+		c.dyn = newDynTyper(c.P)
+	}
+	idx := -1
+	for i, q := range p.Parent().Params {
+		if q == p {
+			idx = i
+		}
+	}
+	var out []string
+	for _, site := range c.dyn.callSitesOf(p.Parent()) {
+		if !scope[site.Parent()] || idx < 0 || idx >= len(site.Call.Args) {
+			continue
+		}
+		arg := site.Call.Args[idx]
+		if !elem {
+			out = append(out, c.stringValuesThroughParams(arg, scope, depth-1)...)
+			continue
+		}
+		if lits := literalElems(arg, 5); len(lits) > 0 {
+			out = append(out, lits...)
+		} else if q, ok := arg.(*ssa.Parameter); ok {
+			// the list is itself a parameter of the caller: one more level
+			fake := &ssa.UnOp{Op: token.MUL, X: &ssa.IndexAddr{X: q}}
+			out = append(out, c.stringValuesThroughParams(fake, scope, depth-1)...)
+		}
+	}
 	return out
 }
